@@ -88,7 +88,8 @@ def showPem (signer : Bool) : PemRes → String
   | .err => "err"
   | .needPass => "needpass pub=nil"
   | .badPass => "badpass"
-  | .ok k p => if signer then s!"ok kind={txt k} pub={toHex p} sv=1" else s!"ok kind={txt k} pub={toHex p}"
+  | .ok k p =>
+    if signer then s!"ok kind={txt k} pub={toHex p} sv=1" else s!"ok kind={txt k} pub={toHex p}"
 
 /-- `pem api=raw|signer mode=plain|pass noblock= ptype= proctype= isenc= decrypt= der=<ok:kind:pub|structural|err>
      dsarest= dsaparams=<p:q:g|->` -/
@@ -116,10 +117,13 @@ def handlePem (o : Op) : String :=
     match der, dsaOk with
     | some der, some dsaOk =>
       let iv (k : String) : Int := match o.hex? k with | some b => mpintVal b | none => 0
-      let pq : Int × Int := match (o.str "dsaparams").splitOn ":" with
-        | [p, q, _] => (match ofHex p, ofHex q with | some p, some q => (mpintVal p, mpintVal q) | _, _ => (0, 0))
-        | _ => (0, 0)
-      let i : PemIn := ⟨nb = 1, pt, proc, ie = 1, dec, der, dr = 1, pq.1, pq.2, iv "dsax", iv "dsay", iv "dsaexp"⟩
+      let pq : Int × Int × Int := match (o.str "dsaparams").splitOn ":" with
+        | [p, q, g] => (match ofHex p, ofHex q, ofHex g with
+          | some p, some q, some g => (mpintVal p, mpintVal q, mpintVal g)
+          | _, _, _ => (0, 0, 0))
+        | _ => (0, 0, 0)
+      let i : PemIn := ⟨nb = 1, pt, proc, ie = 1, dec, der, dr = 1, pq.1, pq.2.1, iv "dsax", iv "dsay", iv "dsaexp",
+        pq.2.2, o.str "dsaqprime" == "1", iv "dsagq"⟩
       let raw := match o.str "mode" with
         | "plain" => some (pemRawPlain i)
         | "pass" => some (pemRawPass i)
